@@ -1,5 +1,7 @@
 import Model.Genum
 import Lemmas.Genum
+import Lemmas.GenumTraits
+import Properties.C04
 import Properties.C05
 /-!
 # C12 — genum: trait accessors and parse-by-trait agree with the declaration
@@ -10,7 +12,7 @@ About `genFull` and the accessor / `Parse` switch / decoder models of `Model/Gen
 namespace Genum.C12
 open Genum
 
-variable {f : FileDef} {t : TypeDecl}
+variable {f : FileDef} {t : TypeDecl} {k : IntKind}
 
 /-! ## accessors -/
 
@@ -67,14 +69,71 @@ theorem accessor_returns_row (o : Options) (g : GenFull) (h : genFull o f t = .o
     td.get r.owner.val = r.dyn :=
   accessor_of_row td (rows_unique o g h td htd) r hr
 
-/- FULL STATEMENT (accessor_returns_declared):
-     genFull o f t = .ok g → Accepted f t.name k → DeclaredTrait f t j e d →
-       ∃ td ∈ g.traits, td.name = (t.cols[j]).name ∧ td.get e = d
-   Proved: `accessor_returns_row` + `accessor_zero` (the switch returns exactly its rows, zero
-   elsewhere) for all definitions. Missing: that the rows `genTraits` keeps are exactly the trait
-   constants of the PRIMARY definition lines (`rowsOf` ∘ `keepRow` against `IsPrimary`), which needs
-   `getPrimaryLoop` = `dedupLoop`'s choice on a sorted group. The correspondence run compares the
-   accessors with the declaration on every generated definition (exhaustively on 8-bit kinds). -/
+/-- the line of the lowest value is the head of the sorted value list, so it has every column -/
+private theorem first_has_all_columns (ha : Accepted f t.name k) (hfl : FirstLineDeclares f t)
+    (first : Value) (rest : List Value) (hvs : sortedValues f t.name = first :: rest) :
+    first.tvals.length = t.cols.length := by
+  have ⟨hsorted, _⟩ := sortedValues_facts ha
+  rw [hvs] at hsorted
+  have hfm : first ∈ sortedValues f t.name := by rw [hvs]; simp
+  obtain ⟨c0, hc0, ht0, rfl⟩ := mem_sortedValues.mp hfm
+  have := hfl c0 hc0 ht0 (by
+    intro c' hc' ht'
+    have hm : Value.ofConst c' ∈ Value.ofConst c0 :: rest := by
+      rw [← hvs]; exact mem_sortedValues.mpr ⟨c', hc', ht', rfl⟩
+    rcases List.mem_cons.mp hm with e | hm
+    · right
+      have e1 : c'.val = c0.val := congrArg Value.val e
+      have e2 : c'.name = c0.name := congrArg Value.name e
+      exact ⟨e1.symm, by rw [e2]; exact String.le_refl _⟩
+    · have hr := (List.pairwise_cons.mp hsorted).1 _ hm
+      unfold R at hr
+      rcases hr with h | ⟨h1, h2⟩
+      · exact Or.inl h
+      · exact Or.inr ⟨h1, String.le_of_lt' h2⟩)
+  exact this
+
+/-- `accessor_returns_declared`: for every definition `genFull` accepts whose lowest value's line
+declares the trait columns, the accessor of column `j` returns, on every defined value, the
+constant written in column `j` of that value's PRIMARY definition line (first non-deprecated name
+alphabetically, first name if all are deprecated) — whatever aliases, deprecated or live, with or
+without trait columns of their own, share the value. (`accessor_zero`: the zero value elsewhere.) -/
+theorem accessor_returns_declared (o : Options) (g : GenFull) (h : genFull o f t = .ok g)
+    (ha : Accepted f t.name k) (hfl : FirstLineDeclares f t)
+    (j : Nat) (e : Int) (d : Dyn) (hd : DeclaredTrait f t j e d) :
+    ∃ td ∈ g.traits, (∃ col, t.cols[j]? = some col ∧ td.name = col.name) ∧ td.get e = d := by
+  obtain ⟨c, hc, hty, hval, hprim, col, hcol, s, hs, rfl⟩ := hd
+  obtain ⟨ts, hts, hg, _⟩ := genFull_ok h
+  have ⟨hsorted, hfaith⟩ := sortedValues_facts ha
+  have hcv : Value.ofConst c ∈ sortedValues f t.name := mem_sortedValues.mpr ⟨c, hc, hty, rfl⟩
+  match hvs : sortedValues f t.name with
+  | [] => rw [hvs] at hcv; cases hcv
+  | first :: rest =>
+    rw [hvs] at hts
+    have hperm := genTraits_ok hts
+    have hfirst := first_has_all_columns ha hfl first rest hvs
+    have htake : t.cols.take first.tvals.length = t.cols := by
+      rw [hfirst]; exact List.take_of_length_le (Nat.le_refl _)
+    rw [htake] at hperm
+    have htd : mkTrait o (first :: rest) (j, col) ∈ ts :=
+      hperm.mem_iff.mpr (List.mem_map.mpr ⟨(j, col), mem_zip_range _ _ _ hcol, rfl⟩)
+    have htdg : mkTrait o (first :: rest) (j, col) ∈ g.traits := by subst hg; exact htd
+    refine ⟨_, htdg, ⟨col, hcol, rfl⟩, ?_⟩
+    have hr1 : (⟨Value.ofConst c, ⟨col.ty, s⟩⟩ : TraitRow) ∈ rowsOf (first :: rest) j col.ty := by
+      unfold rowsOf
+      rw [List.mem_filterMap]
+      exact ⟨Value.ofConst c, hvs ▸ hcv, by simp [Value.ofConst, hs]⟩
+    have hkeep : keepRow {} (first :: rest) ⟨Value.ofConst c, ⟨col.ty, s⟩⟩ = true := by
+      apply keepRow_of_primary_name _ (hvs ▸ hsorted) (hvs ▸ hfaith) _ (hvs ▸ hcv)
+      intro p hpin hpv
+      have hp := primary_of_primaryIn (f := f) (t := t.name) (hvs ▸ hpin)
+      have hpe : p.val = e := by rw [hpv]; exact hval
+      rw [hpe] at hp
+      exact C04.primary_unique hp hprim
+    have hr : (⟨Value.ofConst c, ⟨col.ty, s⟩⟩ : TraitRow) ∈ (mkTrait o (first :: rest) (j, col)).rows :=
+      List.mem_filter.mpr ⟨hr1, hkeep⟩
+    have := accessor_returns_row o g h _ htdg _ hr
+    simpa [Value.ofConst, hval] using this
 
 /-! ## Parse by trait -/
 
